@@ -94,6 +94,25 @@ CHECKS['C12'] = dict(
          'evaluation of Elem/ConditionalSum/logit). Outside: deeper hosts, catalogs.',
     design='DESIGN.md 1/C12')
 
+CHECKS['C08'] = dict(
+    text='For a raw outcome with symbolic log likelihoods, sample size and estimates and a few concrete exact-rational '
+         'Hessians (well conditioned, correlated, tiny eigenvalue, singular; K=3 in thorough), BHHH and bootstrap '
+         'replications, z3 shows every stored statistic and every cell of the parameter, correlation, general and '
+         'compiled tables equals its defining formula within its own family (classical, robust, bootstrap).',
+    note='Trusted: closed-form contracts for scipy.linalg.pinv/inv (adjugate/determinant; cut-off semantics), np.cov, '
+         'uninterpreted normal cdf; eigen/singular values are arbitrary symbols. Outside: arbitrary symbolic matrices '
+         '(the solver did not finish on them), K > 3, LAPACK accuracy.',
+    design='DESIGN.md 1/C08')
+CHECKS['C13'] = dict(
+    text='For 15 sequences of up to three Database operations on a 4-row table with gapped labels, symbolic cells, '
+         'conditions, formula values and scale factor, and solver-chosen permutations/indices in place of the random '
+         'sources, z3 shows: a row is deleted iff its condition is non-zero, new cells equal the formula of their row, one '
+         'column is scaled, folds partition the rows without separating groups, samples/extractions are existing rows by '
+         'position, counts are right.',
+    note='Trusted: engine contract; random sources may return any value of their range. Outside: flatten_database / '
+         'generate_flat_panel_dataframe (value hashing in groupby), larger tables, more than 2 folds.',
+    design='DESIGN.md 1/C13')
+
 NOT_APPLICABLE = {}
 
 
